@@ -345,6 +345,28 @@ func oracleC07(x *Exec, r *StepRec) {
 		return
 	}
 	pre, post := r.Pre, r.Post
+	if r.Kind == "msg" && x.cfg.ModuleService && r.Msg.Svc == types.OraclePriceServiceName {
+		// a call to a module-reserved service issues (and settles) its request inside the step: what it costs the caller is
+		// the fee of the request issued for it — nothing for a request that carries none (super mode), nothing net if the
+		// module's answer was malformed and the fee came back
+		var want int64
+		n := 0
+		for _, rid := range post.ReqIDs() {
+			if _, old := pre.Req[rid]; old {
+				continue
+			}
+			q := post.Req[rid]
+			n++
+			if _, answered := post.Resp[rid]; answered && servedOutputKind(r, rid) == "malformed" {
+				continue
+			}
+			want -= coinsStake(q.ServiceFee)
+		}
+		if got := post.BalOf(r.Sender) - pre.BalOf(r.Sender); n > 0 && got != want {
+			x.viol("C07", "charge_mismatch", fmt.Sprintf("height %d: the call to the module-reserved service moved the caller's balance by %d, the fee of the request issued for it says %d", post.Height, got, want), map[string]string{"context_origin": "modsvc"})
+			return
+		}
+	}
 	if r.Kind == "end" {
 		// what each consumer is charged at batch start is the sum of the fees of the requests issued for it
 		// (refunds of requests expiring in this block are added back)
